@@ -2,7 +2,7 @@
     hierarchy; the observable is, per step, whether it raised / what the call ran, a probe
     call of every dispatch value of the universe (after every step, or only at the end),
     and at the end the hierarchy as seen through isa?, parents, ancestors, descendants. *)
-From Coq Require Import List Bool NArith.
+From Coq Require Import List Bool NArith ZArith Uint63.
 Import ListNotations.
 From Verif Require Export C18.Base C18.Hierarchy C18.MultiFn C18.Model C18.Spec.
 
@@ -42,6 +42,63 @@ Inductive out :=
     every step (when [every]) and always at the end *)
 Definition expand (every : bool) (univ : list tag) (ops : list op) : list op :=
   flat_map (fun o => o :: (if every then map OCall univ else [])) ops ++ map OCall univ.
+
+(** ** compact transport of an implementation output (parsing long list literals dominates the
+       cost of a correspondence run): step results as base-32 digits of one number, isa?
+       answers as bits, sets of tags as bit masks over [std_all] (bit 10: some other tag) *)
+Definition std_all : list tag := [K 0; K 1; K 2; K 3; K 4; K 5; C 0; C 1; C 2; C 3]%N.
+
+Fixpoint digits (base : N) (n : nat) (v : N) : list N :=
+  match n with
+  | O => []
+  | S n' => N.modulo v base :: digits base n' (N.div v base)
+  end.
+
+Definition dec_sres (x : N) : sres :=
+  match x with
+  | 0 => SOk | 1 => SErr | 2 => SBad
+  | 3 => SRes RNoMethod | 4 => SRes RAmbiguous | 5 => SRes ROther
+  | _ => SRes (RMethod (x - 6))
+  end%N.
+
+Fixpoint mask_from (i : N) (l : list tag) (m : N) : list tag :=
+  match l with
+  | [] => if N.testbit m i then [K 999%N] else []
+  | t :: r => if N.testbit m i then t :: mask_from (N.succ i) r m else mask_from (N.succ i) r m
+  end.
+Definition dec_set (m : N) : list tag := mask_from 0 std_all m.
+
+Fixpoint dec_desc (i : N) (none : N) (l : list N) : list (option (list tag)) :=
+  match l with
+  | [] => []
+  | m :: r => (if N.testbit none i then None else Some (dec_set m)) :: dec_desc (N.succ i) none r
+  end.
+
+(** numbers are sent as primitive 63-bit integers (their literals are the only ones coqc parses
+    quickly), in chunks: 12 base-32 digits, 60 bits, or 5 masks of 11 bits per integer *)
+Definition int_to_N (x : int) : N := Z.to_N (Uint63.to_Z x).
+Definition unchunk (base : N) (per : nat) (n : nat) (chunks : list int) : list N :=
+  firstn n (flat_map (fun c => digits base per (int_to_N c)) chunks).
+
+Definition unpack (n' : int) (steps : list int) (nq' : int) (isa : list int)
+           (nt' : int) (sets : list int) (none : int) : out :=
+  let n := N.to_nat (int_to_N n') in
+  let nq := N.to_nat (int_to_N nq') in
+  let nt := N.to_nat (int_to_N nt') in
+  let ms := unchunk 2048 5 (3 * nt) sets in
+  OOut (map dec_sres (unchunk 32 12 n steps))
+       {| d_isa := map (N.eqb 1) (unchunk 2 60 nq isa);
+          d_par := map dec_set (firstn nt ms);
+          d_anc := map dec_set (firstn nt (skipn nt ms));
+          d_desc := dec_desc 0 (int_to_N none) (skipn (2 * nt) ms) |}.
+
+(** short names for the literals of generated cases *)
+Definition k0 := K 0. Definition k1 := K 1. Definition k2 := K 2. Definition k3 := K 3.
+Definition k4 := K 4. Definition k5 := K 5.
+Definition c0 := C 0. Definition c1 := C 1. Definition c2 := C 2. Definition c3 := C 3.
+Definition m0 := 0%N. Definition m1 := 1%N. Definition m2 := 2%N. Definition m3 := 3%N.
+Definition m4 := 4%N. Definition m5 := 5%N. Definition m6 := 6%N. Definition m7 := 7%N.
+Definition m8 := 8%N. Definition m9 := 9%N.
 
 Definition set_incl (a b : list tag) : bool := forallb (fun x => tmem x b) a.
 Definition set_eqb (a b : list tag) : bool := set_incl a b && set_incl b a.
